@@ -53,6 +53,7 @@ var purePackages = map[string]string{
 	"golang.org/x/crypto/ed25519": "verification is side-effect free",
 	"crypto": "hash selection is side-effect free",
 	"github.com/btcsuite/btcd/btcec/v2": "curve accessors are side-effect free",
+	"github.com/decred/dcrd/dcrec/secp256k1/v4": "curve arithmetic is side-effect free",
 	"math/big": "big.Int constructors used here return fresh values",
 	repoModule + "/pkg/internal/log": "log field constructors only build slog attributes",
 	repoModule + "/pkg/log": "logger construction / level checks do not change program-visible state",
@@ -130,6 +131,14 @@ func (f *Frame) encodeCall(x ssa.Value, cc *ssa.CallCommon, st *State) {
 			fn = cv.Fn
 		default:
 			f.safetyObl("nil", f.srcText(f.curInstr)+" (nil func)", not(eq(cv.T, "nil")))
+			// a named function type may carry a contract for "calling a value of this type"
+			if n, ok := cc.Value.Type().(*types.Named); ok && n.Obj().Pkg() != nil {
+				k := funcKey(n.Obj().Pkg().Path(), n.Obj().Name(), "call")
+				if fc := e.prog.Contracts[k]; fc != nil {
+					f.applyContract(x, fc, nil, k, append([]*Val{cv}, args...), resultTypes(sig), st, cc)
+					return
+				}
+			}
 			f.unknownCall(x, "dynamic call", args, resultTypes(sig), st, false)
 			return
 		}
@@ -347,7 +356,7 @@ func (f *Frame) applyContract(x ssa.Value, fc *FuncContract, fn *ssa.Function, k
 	} else {
 		sig = cc.Signature()
 	}
-	hasRecv := cc.IsInvoke() || (fn != nil && fn.Signature.Recv() != nil)
+	hasRecv := cc.IsInvoke() || (fn != nil && fn.Signature.Recv() != nil) || (fn == nil && !cc.IsInvoke() && len(args) == sig.Params().Len()+1)
 	vars := bindParams(fc, fn, sig, args, hasRecv)
 	if fn != nil {
 		for i, fv := range fn.FreeVars {
